@@ -52,7 +52,7 @@ def run_witness(unit, seed=0, only=None):
         env["VERIF_SEED"] = str(seed)
         cmd = ["cargo", "test", "--offline", "--lib", mod, "--", "--nocapture", "--test-threads", "1"]
         try:
-            p = subprocess.run(cmd, cwd=dst, capture_output=True, text=True, timeout=900, env=env)
+            p = R.run_group(cmd, cwd=dst, timeout=900, env=env)   # own session: a time-out kills the test binary too
         except subprocess.TimeoutExpired:
             raise R.Infra(f"{unit['name']}: witness search timed out")
         out = p.stdout + "\n" + p.stderr
